@@ -477,6 +477,11 @@ def world_rule(model: Model, res, scope: Tuple[str, ...] = (), rule: str = "R-WO
                  f"follows ({len(foll)} followed), decorators modelled or transparent, memoised functions are functions of their arguments, "
                  f"operator methods within the modelled set ({n} definitions examined)", "demeter/", ok=not findings and not refuse)
     res.units["world_definitions_examined"] = n
+    # ---- W9 the decorator that coerces the arguments of every public operation (shape rule in props/base_refs.py)
+    if (model.pkg + ".utils.application") in model.modules and "float_param_formatter" in model.modules[model.pkg + ".utils.application"].funcs \
+            and not any(o.instance.startswith("float_param_formatter:") for o in res.obligations):
+        from ..props.base_refs import param_formatter
+        param_formatter(res, model)
     for k, where, func, construct, msg in refuse:
         res.refusals.append(f"R-WORLD {k} at {where}: {msg}")
     return n, len(findings)
